@@ -195,42 +195,63 @@ def run(c):
                     % (len(inherited), nab),
                     {"broken": whyA.replace("invariant ", ""), "scenario": "aborted-before-accept"},
                     {"steps": asteps[:6], "inherited": inherited[:3]})
-    remaining = allrows
-    unreproduced = 0
-    for _round in range(6):
-        ok, why, res = validate_trace(c, "SingleUseTrace", "SingleUseTrace.cfg", remaining, "c07", count=1, timeout=900, heap="4g")
-        if ok:
-            break
+    # validate in chunks of whole histories (counterexamples of trace validation are as long as the trace)
+    chunks, cur, last_h = [], [], None
+    for r in allrows:
+        m = None
         import re
-        ids = re.findall(r'id \|-> "([^"]+)"', res.trace_text)
-        bad = next((r for r in remaining if r.get("id") == (ids[-1] if ids else None)), {})
-        m = re.match(r"h(\d+)r\d+", bad.get("id", ""))
-        if m:
-            # a generated history: re-execute it alone (no parallel load, long accept wait); only a verdict that
-            # reproduces is reported -- under load an accept can lag behind a client abort, which is not this property
-            hi = int(m.group(1))
-            st, meta1 = hist_steps(hists[hi], hi)
-            for x in st:
-                if x.get("op") == "connect":
-                    x["wait_ms"] = 3000
-            ev1, d1, _ = rig.run_rig({"steps": st, "drain_ms": 200}, "c07_re", timeout=300)
-            rows1 = rows_from(ev1, meta1)
-            ok1, why1, _ = validate_trace(c, "SingleUseTrace", "SingleUseTrace.cfg", rows1, "c07_re", count=0, timeout=300)
-            if ok1:
-                unreproduced += 1
-                pref = "h%d_" % hi
-                remaining = [r for r in remaining if not str(r.get("conn", "")).startswith(pref)]
-                continue
-            c.violation("C07 broken on request %s (history %s): %s; %s" % (bad.get("id"), json.dumps(hists[hi]), why1, json.dumps(bad)),
-                        {"broken": why1.replace("invariant ", ""), "relayed": bad.get("relayed"), "status": bad.get("status")},
-                        {"history": hists[hi], "obs": bad})
+        m = re.match(r"(h\d+)_", str(r.get("conn", "")))
+        hkey = m.group(1) if m else "stress"
+        if hkey != last_h:
+            if len(cur) > 2500 and hkey != "stress":
+                chunks.append(cur)
+                cur = []
+            cur.append({"e": "reset"})
+            last_h = hkey
+        cur.append(r)
+    if cur:
+        chunks.append(cur)
+    unreproduced = 0
+    violated = False
+    for ci, chunk in enumerate(chunks):
+        remaining = chunk
+        for _round in range(8):
+            ok, why, res = validate_trace(c, "SingleUseTrace", "SingleUseTrace.cfg", remaining, "c07_%d" % ci, count=1, timeout=900, heap="3g")
+            if ok:
+                break
+            ids = re.findall(r'id \|-> "([^"]+)"', res.trace_text)
+            bad = next((r for r in remaining if r.get("id") == (ids[-1] if ids else None)), {})
+            m = re.match(r"h(\d+)r\d+", bad.get("id", ""))
+            if m:
+                # a generated history: re-execute it alone (no parallel load, long accept wait); only a verdict that
+                # reproduces is reported -- under load an accept can lag behind a client abort, which is not this property
+                hi = int(m.group(1))
+                st, meta1 = hist_steps(hists[hi], hi)
+                for x in st:
+                    if x.get("op") == "connect":
+                        x["wait_ms"] = 3000
+                ev1, d1, _ = rig.run_rig({"steps": st, "drain_ms": 200}, "c07_re", timeout=300)
+                rows1 = rows_from(ev1, meta1)
+                ok1, why1, _ = validate_trace(c, "SingleUseTrace", "SingleUseTrace.cfg", rows1, "c07_re", count=0, timeout=300)
+                if ok1:
+                    unreproduced += 1
+                    pref = "h%d_" % hi
+                    remaining = [r for r in remaining if not str(r.get("conn", "")).startswith(pref)]
+                    continue
+                c.violation("C07 broken on request %s (history %s): %s; %s" % (bad.get("id"), json.dumps(hists[hi]), why1, json.dumps(bad)),
+                            {"broken": why1.replace("invariant ", ""), "relayed": bad.get("relayed"), "status": bad.get("status")},
+                            {"history": hists[hi], "obs": bad})
+                violated = True
+                break
+            c.violation("C07 broken on request %s: %s; %s" % (bad.get("id"), why, json.dumps(bad)),
+                        {"broken": why.replace("invariant ", ""), "relayed": bad.get("relayed"), "status": bad.get("status")},
+                        {"obs": bad})
+            violated = True
             break
-        c.violation("C07 broken on request %s: %s; %s" % (bad.get("id"), why, json.dumps(bad)),
-                    {"broken": why.replace("invariant ", ""), "relayed": bad.get("relayed"), "status": bad.get("status")},
-                    {"obs": bad})
-        break
-    else:
-        raise util.ToolError("C07: %d rejected histories did not reproduce in isolation" % unreproduced)
+        else:
+            raise util.ToolError("C07: too many rejected histories in one chunk did not reproduce in isolation")
+        if violated:
+            break
     c.extra["rejected_under_load_not_reproduced"] = unreproduced
     c.rule = ("histories = every sequence of 5 operations (connect attributed as root->WireServer / user->IMDS or direct, on "
               "either of two source ports incl. reuse; request; close) over two connection slots printed by TLC; plus a "
